@@ -7,7 +7,7 @@ from rules import robust as R
 def run(ctx):
     ctx.rule("R-JOB-SUBSCRIPT", "no unprotected job-thread subscript on a table another role deletes from", floor=6)
     ctx.rule("R-SNAPSHOT", "job-thread scans iterate a snapshot of the keys", floor=5)
-    ctx.rule("R-ORDER-SEND", "J1939-21: send state is advanced before the frame is put on the bus", floor=2)
+    ctx.rule("R-ORDER-SEND", "send state is advanced before RTS / connection-mode DT is put on the bus (both layers)", floor=4)
     ctx.rule("R-ROLE-WRITERS", "which role structurally modifies which session table (insert/delete)", floor=4)
     for fd in (False, True):
         L = T.Layer(ctx, fd=fd)
@@ -21,7 +21,6 @@ def run(ctx):
                 ctx.violated("R-ROLE-WRITERS", f, "%s _snd_buffer deleted outside the job thread" % L.tag,
                              "send sessions are deleted by %s: the job thread's burst loop keeps sending from / re-arming a session that "
                              "no longer exists, and its own del raises KeyError" % f.name, n)
-        if not fd:
-            S.order_send(ctx, L)
+        S.order_send(ctx, L)
     ctx.assume("CPython: dict get/pop/in on a key are atomic with respect to the other thread; a thread switch can occur between any two bytecodes")
     return "raise-on-interleave and ordering clauses of C08 decided on both data link layers"
